@@ -12,7 +12,7 @@ from astlib import ps
 def check_total(c, r, ck, want_err=None):
     """totality verdicts for one input; returns description or None"""
     src = c["src"]
-    n = len(src.encode("utf-8"))
+    n = len(bytes.fromhex(c["hex"])) if c.get("hex") else len(src.encode("utf-8"))
     lx = r.get("lex")
     if lx is not None:
         if lx["outcome"] != "ok":
@@ -127,6 +127,15 @@ def run(tier, replay=None):
             else:
                 b = b[:i]
             add("".join(b), "mutated programs")
+    # bytes that are not valid UTF-8 (Latin-1 text, truncated sequences, 0xff, overlong forms) in strings, comments, names, at every
+    # distance from the end of the input; they travel to the harness as hexadecimal
+    badb = [b"\xe9", b"\xff", b"\x80", b"\xc3", b"\xe2\x82", b"\xf0\x9f\x98", b"\xc0\xaf", b"\xed\xa0\x80"]
+    frames = [b'"%s"', b'write("%s")', b'write("a%sb")\nwrite("x")', b"1 ; caf%s", b"1 ; %s\n2", b"%s", b"a%s", b'"%s', b'x = "%s" + "y"\nx', b"; %s", b'write("%s")\n', b'["%s", 1]']
+    for bb in badb:
+        for frm in frames:
+            raw = frm.replace(b"%s", bb)
+            c = add(raw.decode("utf-8", errors="replace"), "bytes that are not valid UTF-8", nolex=True)
+            c["hex"] = raw.hex()
     for ptxt in frontlib.long_programs(seed, 6 if tier == "quick" else 60):
         add(ptxt, "long programs (70 to 1500 tokens in one parse)", nolex=True)
     res = frontlib.run_front(cases)
